@@ -9,5 +9,8 @@ CONSTANTS
   MaxClosed = 14
   MaxBal = 0
   MaxVals = 0
+  Gaps <- GapsGen
+  RFs <- RFsGen
+  Ivs = {"Daily", "Annual252", "Annual365", "Hours2", "Days500"}
 INVARIANT Emit16
 CHECK_DEADLOCK FALSE
